@@ -21,7 +21,29 @@ FI = "porepy/fracs/fracture_importer.py"
 MG = "porepy/grids/mortar_grid.py"
 MAT = "porepy/grids/match_grids.py"
 
+SS = "porepy/models/solution_strategy.py"
+NL = "porepy/numerics/nonlinear/nonlinear_solvers.py"
+
 MUTANTS = {
+    "C10": [
+        {"name": "no_iterate_reset_after_failure", "file": SS,
+         "old": "            self.equation_system.set_variable_values(prev_solution, iterate_index=0)\n", "new": "            pass\n"},
+        {"name": "update_solution_set_before_shift", "file": SS,
+         "old": "        self.equation_system.shift_time_step_values(\n            max_index=len(self.time_step_indices)\n        )\n        self.equation_system.set_variable_values(\n            values=solution, time_step_index=0, additive=False\n        )",
+         "new": "        self.equation_system.set_variable_values(\n            values=solution, time_step_index=0, additive=False\n        )\n        self.equation_system.shift_time_step_values(\n            max_index=len(self.time_step_indices)\n        )"},
+        {"name": "failure_updates_solution", "file": SS,
+         "old": "    def after_nonlinear_failure(self) -> None:\n        \"\"\"Method to be called if the non-linear solver fails to converge.\"\"\"\n        self.save_data_time_step()",
+         "new": "    def after_nonlinear_failure(self) -> None:\n        \"\"\"Method to be called if the non-linear solver fails to converge.\"\"\"\n        self.update_solution(self.equation_system.get_variable_values(iterate_index=0))\n        self.save_data_time_step()"},
+        {"name": "iterate_reset_only_when_nan", "file": SS,
+         "old": "            self.equation_system.set_variable_values(prev_solution, iterate_index=0)\n",
+         "new": "            if np.any(np.isnan(self.equation_system.get_variable_values(iterate_index=0))):\n                self.equation_system.set_variable_values(prev_solution, iterate_index=0)\n"},
+        {"name": "newton_treats_max_iterations_as_converged", "file": NL,
+         "old": "        if not is_converged:\n            # If Newton fails",
+         "new": "        if not is_converged and not is_diverged:\n            model.after_nonlinear_convergence()\n            return True\n        if not is_converged:\n            # If Newton fails"},
+        {"name": "shift_iterates_no_depth", "file": SS,
+         "old": "        self.equation_system.shift_time_step_values(\n            max_index=len(self.time_step_indices)\n        )",
+         "new": "        self.equation_system.shift_time_step_values(max_index=1)"},
+    ],
     "C26": [
         {"name": "update_mortar_avg_for_int", "file": MG, "old": "                matrix_int * self._primary_to_mortar_int", "new": "                matrix_avg * self._primary_to_mortar_int"},
         {"name": "update_primary_forgets_set_projections", "file": MG, "old": "        self._set_projections(secondary=False)\n", "new": ""},
